@@ -123,6 +123,47 @@ def diverges(n):
     return n.get("ty") == "!" and n.get("k") not in ("blockexpr",)
 
 
+def _value_tag(e):
+    """shape of a value handed back by a helper: Some / None / Err (through Ok(..)), else other"""
+    for _ in range(8):
+        if not isinstance(e, dict):
+            return "other"
+        k = e.get("k")
+        if k in ("paren", "ref"):
+            e = e["e"]
+        elif k == "blockexpr" and "tail" in e["b"] and "inl_id" not in e:
+            e = e["b"]["tail"]
+        elif k == "ctor" and (callee(e) or "").endswith("Result::Ok") and len(e.get("args", [])) == 1:
+            e = e["args"][0]
+        else:
+            break
+    if not isinstance(e, dict):
+        return "other"
+    c = (callee(e) or e.get("path") or "") if e.get("k") in ("ctor", "def", "path") else ""
+    if c.endswith("Option::Some"):
+        return "Some"
+    if c.endswith("Option::None"):
+        return "None"
+    if c.endswith("Result::Err"):
+        return "Err"
+    return "other"
+
+
+def _pattern_tag(p):
+    while isinstance(p, dict) and p.get("k") in ("pref", "pderef"):
+        p = p["pat"]
+    if not isinstance(p, dict):
+        return None
+    if p.get("k") == "pwild" or (p.get("k") == "pbind" and "sub" not in p):
+        return "wild"
+    path = p.get("path", "")
+    if p.get("k") in ("pvariant", "pconst", "ppath") and path.endswith("Option::Some"):
+        return "Some"
+    if p.get("k") in ("pvariant", "pconst", "ppath") and path.endswith("Option::None"):
+        return "None"
+    return None
+
+
 class Pairing:
     """must-pass-through: after every evaluation of a `start` node, every path to the end of `scope`
     (or to a break/continue leaving it) evaluates a `target` node; paths that leave the function
@@ -140,6 +181,32 @@ class Pairing:
         if "need" in out:
             self.problems.append((scope_body, "the end of the enclosing scope is reachable without the closing call"))
         return self.problems
+
+    def _tags_of(self, e):
+        """exit states per value shape when e is a local bound to the value of an inlined helper and no opening/closing call ran since"""
+        while isinstance(e, dict) and e.get("k") in ("paren", "ref", "deref"):
+            e = e["e"]
+        if isinstance(e, dict) and e.get("k") == "local":
+            rec = getattr(self, "_tagged", {}).get(e["id"])
+            if rec is not None and rec[0] == getattr(self, "_events", 0):
+                return rec[1]
+        return None
+
+    def _option_test(self, cond):
+        """`if let Some(..) = x` / `x.is_some()` / `x.is_none()` on such a local: (tags, tag selected by the then-branch)"""
+        c = cond
+        while c.get("k") in ("paren",):
+            c = c["e"]
+        if c.get("k") == "letexpr":
+            tags = self._tags_of(c["init"])
+            tag = _pattern_tag(c["pat"])
+            if tags is not None and tag in ("Some", "None"):
+                return tags, tag
+        if c.get("k") == "mcall" and c["name"] in ("is_some", "is_none") and not c["args"]:
+            tags = self._tags_of(c["recv"])
+            if tags is not None:
+                return tags, "Some" if c["name"] == "is_some" else "None"
+        return None
 
     def ex_list(self, ns, st, depth):
         for x in ns:
@@ -168,37 +235,71 @@ class Pairing:
             return st
         if k == "blockexpr":
             if "inl_id" in n:
-                # an inlined helper: its `return`s (ireturn) continue after the block
+                # an inlined helper: its `return`s (ireturn) continue after the block; the states are kept per shape of the
+                # value handed back (Some / None / Err / other) so that a later test of that value selects the matching exits
                 self._irets = getattr(self, "_irets", {})
-                self._irets[n["inl_id"]] = set()
+                self._irets[n["inl_id"]] = {}
                 out = self.ex(n["b"], st, depth)
-                return frozenset(set(out) | self._irets.pop(n["inl_id"]))
+                tags = self._irets.pop(n["inl_id"])
+                if out:
+                    t = n["b"].get("tail")
+                    tags.setdefault(_value_tag(t) if t is not None else "other", set()).update(out)
+                self._last_inl = (id(n), {a: frozenset(b) for a, b in tags.items()})
+                return frozenset(x for b in tags.values() for x in b)
             return self.ex(n["b"], st, depth)
         if k == "ireturn":
             if "e" in n:
                 st = self.ex(n["e"], st, depth)
             if n.get("inl") in getattr(self, "_irets", {}):
-                self._irets[n["inl"]] |= set(st)
+                self._irets[n["inl"]].setdefault(_value_tag(n["e"]) if "e" in n else "other", set()).update(st)
             return frozenset()
         if k == "semi":
             return self.ex(n["e"], st, depth)
         if k == "let":
             if "init" in n:
                 st = self.ex(n["init"], st, depth)
+                ini, tried = n["init"], False
+                while isinstance(ini, dict) and ini.get("k") in ("try", "paren", "ref"):
+                    tried = tried or ini["k"] == "try"
+                    ini = ini["e"]
+                li = getattr(self, "_last_inl", None)
+                if li is not None and li[0] == id(ini) and n["pat"].get("k") == "pbind" and "els" not in n:
+                    tags = dict(li[1])
+                    if tried:
+                        tags.pop("Err", None)      # the error edge of `?` leaves the function
+                        st = frozenset(x for b in tags.values() for x in b)
+                    self._tagged = getattr(self, "_tagged", {})
+                    self._tagged[n["pat"]["id"]] = (getattr(self, "_events", 0), tags)
             if "els" in n:
                 # else block diverges by construction
                 self.ex(n["els"], st, depth)
             return st
         if k == "if":
+            sel = self._option_test(n["cond"]) if isinstance(n["cond"], dict) else None
             st = self.ex(n["cond"], st, depth)
-            a = self.ex(n["then"], st, depth)
-            b = self.ex(n["else"], st, depth) if "else" in n else st
+            sa = sb = st
+            if sel is not None:
+                tags, tag = sel
+                sa = frozenset(x for t_, b in tags.items() if t_ in (tag, "other") for x in b) & st
+                sb = frozenset(x for t_, b in tags.items() if t_ != tag for x in b) & st
+            a = self.ex(n["then"], sa, depth)
+            b = self.ex(n["else"], sb, depth) if "else" in n else sb
             return frozenset(a | b)
         if k == "match":
+            tagged = self._tags_of(n["scrut"])
             st = self.ex(n["scrut"], st, depth)
             out = set()
+            seen = set()
             for arm in n["arms"]:
                 s2 = st
+                if tagged is not None:
+                    tag = _pattern_tag(arm["pat"])
+                    if tag in ("Some", "None"):
+                        s2 = frozenset(x for t_, b in tagged.items() if t_ in (tag, "other") for x in b) & st
+                        if "guard" not in arm:
+                            seen.add(tag)
+                    elif tag == "wild":
+                        s2 = frozenset(x for t_, b in tagged.items() if t_ not in seen for x in b) & st
                 if "guard" in arm:
                     s2 = self.ex(arm["guard"], s2, depth)
                 out |= self.ex(arm["body"], s2, depth)
@@ -262,6 +363,8 @@ class Pairing:
                     st = self.ex(v, st, depth)
         if not st:
             return st
+        if self.is_target(n) or self.is_start(n):
+            self._events = getattr(self, "_events", 0) + 1
         if self.is_target(n):
             st = frozenset(("done" if s == "need" else s) for s in st)
         if self.is_start(n):
